@@ -459,7 +459,9 @@ func (d *driver) abstractReply(m *vh.DhcpMsg) ReplyP {
 			r.SID = d.nw.Abs(netip.AddrFrom4([4]byte{v[0], v[1], v[2], v[3]}))
 		}
 	}
-	if v, i := m.Opt(51); i >= 0 && len(v) == 4 && (v[0]|v[1]|v[2]|v[3]) != 0 {
+	// "the lease time" of the statement is the duration configured for the subnet; the driver leaves
+	// SubnetConfig.Duration unset in every configuration, so both subnets use the package default of 4 hours
+	if v, i := m.Opt(51); i >= 0 && len(v) == 4 && uint32(v[0])<<24|uint32(v[1])<<16|uint32(v[2])<<8|uint32(v[3]) == leaseSeconds {
 		r.LT = true
 	}
 	r.Dst = "ucast"
@@ -850,6 +852,9 @@ func emitForged(d *driver, enc *json.Encoder) {
 	enc.Encode(map[string]interface{}{"a": "forged", "tx": tx})
 	d.txForged = d.txForged[:0]
 }
+
+// leaseSeconds is the lease duration every reply must announce (see the decoder of option 51).
+const leaseSeconds = 4 * 3600
 
 func main() {
 	script := flag.String("script", "", "ndjson action script")
